@@ -21,7 +21,7 @@ META = {
             "bookmark, signature-validation and import entry points in child processes; TLC judges every outcome to be a result or an error.",
     "note": "This decides the structural part of the property; it is not a byte-level fuzzer. Trusted: the raw emitter, the child "
             "protocol (panic recovery, crash attribution), debug.SetMaxStack (64 MB with 10^5 levels thorough, 3 MB with 5000 levels quick: about 640 bytes "
-            "of stack per level) and the CPU budget (0.4 s quick / 1.5 s thorough + 20 us/byte of process CPU time per operation, a timeout is re-run "
+            "of stack per level) and the CPU budget (0.4 s quick / 0.8 s thorough + 5 us/byte of process CPU time per operation, a timeout is re-run "
             "once with 3x the budget before it counts); quick runs the core entry points plus those that traverse the relation, thorough all.",
     "technique": "TLA+ shape model enumerated by TLC, shapes concretised into real inputs and replayed into the real entry points in sandboxed child processes; outcomes judged by TLC",
     "design_ref": "DESIGN.md §5 C08",
@@ -57,9 +57,9 @@ def run(ctx):
         if ctx.quick:
             mutk, trunck, stack, ops, cpums = "12", "12", "3", "core", "400"
         else:
-            mutk, trunck, stack, ops, cpums = "60", "40", "64", "all", "1500"
+            mutk, trunck, stack, ops, cpums = "60", "40", "64", "all", "800"
         p = vlib.sh([binp, "c08", "--in", cases, "--out", rec, "--repo", vlib.REPO, "--workers", "6", "--mutk", mutk, "--trunck", trunck,
-                     "--maxstack-mb", stack, "--cpu-ms", cpums, "--cpu-ns-per-byte", "20000", "--ops", ops], timeout=3500)
+                     "--maxstack-mb", stack, "--cpu-ms", cpums, "--cpu-ns-per-byte", "5000", "--ops", ops], timeout=3500)
         summ = _summary(p)
         rows = vlib.read_ndjson(rec)
         if summ["cases"] != ncase or len(rows) != ncase:
@@ -124,7 +124,7 @@ def run(ctx):
                outcomes=dict(outs), died=summ["dead"], timeouts_not_confirmed=summ["timeouts_not_confirmed"],
                max_op_ms=max(r["maxms"] for r in rows), exhaustive=False)
         ev.assume("stack limit %s MB (debug.SetMaxStack) with chains of %s levels: an unguarded recursion needs about 640 bytes of stack per level to be seen" % (stack, "5000" if ctx.quick else "10^5"),
-                  "time bound per operation: %s ms + 20 us per input byte of process CPU time (confirmed once with 3x the budget), wall clock backstop 300 s + 0.4 ms per byte" % cpums,
+                  "time bound per operation: %s ms + 5 us per input byte of process CPU time (confirmed once with 3x the budget), wall clock backstop 300 s + 0.4 ms per byte" % cpums,
                   "after two confirmed timeouts on one input the remaining operations on it are not run and not judged; after two deaths of an entry point on shapes of one relation it is not run on the remaining cyclic shapes of that relation (the relation is reported)",
                   "not a byte-level fuzzer: the space is the structural shapes of Robust.tla",
                   "harness built with go1.26.8")
